@@ -63,6 +63,7 @@ func show(argv [][]byte) string {
 
 var t0 = flag.Int64("t0", 1000, "model time origin (T0 of the MC instance)")
 var wireMode = flag.Bool("wire", false, "C03: send setup+path+command as ONE pipelined batch through Manager.Handle (net.Pipe) and decode the reply stream independently")
+var clusterPath = flag.Bool("cluster", false, "wire mode: serve through the real cluster connection handler and apply loop (C14)")
 var subst = flag.Bool("subst", false, "wire mode: every argument equal to \"b\" is sent as \"b\\r\\n\" (payloads with CR LF); replies are mapped back before matching")
 
 func substArgs(argv [][]byte) [][]byte {
@@ -283,7 +284,12 @@ func main() {
 					batch = append(batch, substArgs(shiftAbs(st.argv, shift)))
 				}
 				batch = append(batch, substArgs(shiftAbs(ce.argv, shift)))
-				wc := wire.NewPipe(1)
+				var wc *wire.Conn
+				if *clusterPath {
+					wc = wire.NewClusterPipe()
+				} else {
+					wc = wire.NewPipe(1)
+				}
 				res := wc.Batch(batch, 3*time.Second)
 				wc.Close()
 				execs += len(batch)
